@@ -1,10 +1,10 @@
-\* thorough instance 4: read / merge clauses (state and action form), both domains, offsets -1..1
+\* thorough instance 4: read / merge clauses (state and action form), flat domain, offsets -1..2, sizes 1/2/4
 CONSTANTS
   NegOff = 1
-  OffHi = 1
-  Sizes = {1, 2}
-  Doms = {"flat", "flagged"}
-  NVals = 1
+  OffHi = 2
+  Sizes = {1, 2, 4}
+  Doms = {"flat"}
+  NVals = 2
   ShiftMag = {1, 2}
   FreeB = FALSE
 INIT MCInit
